@@ -90,7 +90,103 @@ theorem classifyLock2_obs (s : Engine2.DB) (c : Engine.Cmd) (hcell : (s.getKey c
       split <;> rfl
   unfold Engine2.classifyLock classifyObs
   simp only []
-  sorry
+  split
+  · rfl
+  split
+  · rfl
+  split
+  · rfl
+  have hafter : ∀ b : Bool, absLB (s.getKey c.key)
+      (if ((!b || has c.tflag Engine.TF_PRIORITY && Engine2.checkWaitPriority (s.getKey c.key) c) && Engine2.doLock (s.getKey c.key) c) = true then
+        (if c.expried > 0 then Engine2.LockBranch.grant else Engine2.LockBranch.grantNoHold)
+      else if c.timeout > 0 then Engine2.LockBranch.queue else Engine2.LockBranch.timeout) =
+      (if ((!b || has c.tflag Engine.TF_PRIORITY && Engine2.checkWaitPriority (s.getKey c.key) c) && Engine2.doLock (s.getKey c.key) c) = true then
+        (if c.expried > 0 then Engine.LockBranch.grant else Engine.LockBranch.grantNoHold)
+      else if c.timeout > 0 then Engine.LockBranch.queue else Engine.LockBranch.timeout) := by
+    intro b
+    split
+    · split <;> rfl
+    · split <;> rfl
+  by_cases hL : (s.getKey c.key).locked > 0
+  · simp only [hL, if_true]
+    have hfind : absLB (s.getKey c.key)
+        (match Engine2.findHolder (s.getKey c.key) c.lockId with
+          | some h =>
+            if has c.flag Engine.F_UPDATE = true then
+              if has c.flag Engine2.F_DATA = true then
+                if (Engine2.dataSettled (({ db := s, k := s.getKey c.key } : Engine2.W).procData Value.CmdType.lock c (Engine2.frameOf c none) h).k h &&
+                    Engine2.checkLockedEqual s.now ((s.getKey c.key).getR h) c) = true then Engine2.LockBranch.updateEqualData h
+                else Engine2.LockBranch.update h
+              else if Engine2.checkLockedEqual s.now ((s.getKey c.key).getR h) c = true then Engine2.LockBranch.updateEqual h
+                else Engine2.LockBranch.update h
+            else
+              if (decide (((s.getKey c.key).getR h).depth < 255) && decide (((s.getKey c.key).getR h).depth ≤ c.rcount) &&
+                  !has c.tflag Engine.TF_PRIORITY) = true then
+                if (c.expried == 0) = true then Engine2.LockBranch.relockNoHold h else Engine2.LockBranch.relock h
+              else Engine2.LockBranch.relockRefused h
+          | none =>
+            if ((!(s.getKey c.key).waited || has c.tflag Engine.TF_PRIORITY && Engine2.checkWaitPriority (s.getKey c.key) c) &&
+                Engine2.doLock (s.getKey c.key) c) = true then
+              (if c.expried > 0 then Engine2.LockBranch.grant else Engine2.LockBranch.grantNoHold)
+            else if c.timeout > 0 then Engine2.LockBranch.queue else Engine2.LockBranch.timeout) =
+        (match (Engine2.findHolder (s.getKey c.key) c.lockId).map (holdOf (s.getKey c.key)) with
+          | some h =>
+            if has c.flag Engine.F_UPDATE = true then
+              if (!has c.flag Engine.F_CONTAINS_DATA && Engine.checkLockedEqual s.now h c) = true then Engine.LockBranch.updateEqual h
+              else Engine.LockBranch.update h
+            else if (decide (h.depth < 255) && decide (h.depth ≤ c.rcount) && !has c.tflag Engine.TF_PRIORITY) = true then
+              (if (c.expried == 0) = true then Engine.LockBranch.relockNoHold h else Engine.LockBranch.relock h)
+            else Engine.LockBranch.relockRefused h
+          | none =>
+            if ((!(s.getKey c.key).waited || has c.tflag Engine.TF_PRIORITY && Engine2.checkWaitPriority (s.getKey c.key) c) &&
+                Engine2.doLock (s.getKey c.key) c) = true then
+              (if c.expried > 0 then Engine.LockBranch.grant else Engine.LockBranch.grantNoHold)
+            else if c.timeout > 0 then Engine.LockBranch.queue else Engine.LockBranch.timeout) := by
+      cases hf : Engine2.findHolder (s.getKey c.key) c.lockId with
+      | none => exact hafter _
+      | some h =>
+        simp only [Option.map_some]
+        by_cases hU : has c.flag Engine.F_UPDATE = true
+        · rw [if_pos hU, if_pos hU]
+          exact hupd h c rfl
+        · rw [if_neg hU, if_neg hU]
+          by_cases hR : (decide (((s.getKey c.key).getR h).depth < 255) && decide (((s.getKey c.key).getR h).depth ≤ c.rcount) &&
+              !has c.tflag Engine.TF_PRIORITY) = true
+          · rw [if_pos hR]
+            have hR' : (decide ((holdOf (s.getKey c.key) h).depth < 255) && decide ((holdOf (s.getKey c.key) h).depth ≤ c.rcount) &&
+              !has c.tflag Engine.TF_PRIORITY) = true := hR
+            rw [if_pos hR']
+            split <;> rfl
+          · rw [if_neg hR]
+            have hR' : ¬ (decide ((holdOf (s.getKey c.key) h).depth < 255) && decide ((holdOf (s.getKey c.key) h).depth ≤ c.rcount) &&
+              !has c.tflag Engine.TF_PRIORITY) = true := hR
+            rw [if_neg hR']
+            rfl
+    by_cases hS : has c.flag Engine.F_SHOW = true
+    · simp only [hS, if_true]
+      cases hc : (s.getKey c.key).current with
+      | none => simp only [Option.map_none]; exact hfind
+      | some cur =>
+        simp only [Option.map_some]
+        by_cases hU : (!has c.flag Engine.F_UPDATE) = true
+        · rw [if_pos hU, if_pos hU]; rfl
+        · rw [if_neg hU, if_neg hU]
+          exact hupd cur { c with lockId := ((s.getKey c.key).getR cur).cmd.lockId } rfl
+    · simp only [hS, if_false]
+      exact hfind
+  · simp only [hL, if_false]
+    split
+    · split
+      · rfl
+      · exact hafter true
+    · exact hafter false
+
+theorem classifyObs_cwp (c : Engine.Cmd) (locked : Nat) (waited leader : Bool) (now : Nat) (head find : Option Engine.Hold) (cwp cwp' dl : Bool)
+    (h : has c.tflag Engine.TF_PRIORITY = true → cwp = cwp') :
+    classifyObs c locked waited leader now head find cwp dl = classifyObs c locked waited leader now head find cwp' dl := by
+  cases hp : has c.tflag Engine.TF_PRIORITY with
+  | true => rw [h hp]
+  | false => unfold classifyObs; simp only [hp, Bool.false_and]
 
 /-- **LOCK: the record-level branch is the stage-1 branch** (no value frame, the key has no value, and the two forms of the
 waiter-priority test agree — they are only evaluated for a command with the priority flag) -/
@@ -101,16 +197,84 @@ theorem classify_lock_refines (s : Engine2.DB) (hq : Engine2.DBQ s) (c : Engine.
     Engine.classifyLock (Engine2.abs s) c = absLB (s.getKey c.key) (Engine2.classifyLock s c none) := by
   have hl : Engine2.CurLive (s.getKey c.key) := Engine2.cur_getKey hq.dbt.tight c.key
   have hn : Engine2.CurNone (s.getKey c.key) := (Engine2.qi_getKey hq.qi c.key).cn
-  unfold Engine.classifyLock Engine2.classifyLock
+  rw [classifyLock1_obs, classifyLock2_obs s c hcell, abs_getKey s hq.dbt.dbi.kn c.key, abs_head _ hl hn, abs_findHolder, abs_doLock _ hl hn]
+  exact classifyObs_cwp _ _ _ _ _ _ _ _ _ _ hp
+
+/-! ### UNLOCK -/
+
+/-- the stage-1 branch of a record-level UNLOCK branch (an UNLOCK on a key without key record is refused like one on an unheld key) -/
+def absUB (k : Engine2.Key) (c : Engine.Cmd) : Engine2.UnlockBranch → Engine.UnlockBranch
+  | .noManager => if has c.flag Engine.UF_CANCEL then .cancelNone else .notLocked
+  | .stateError => .stateError
+  | .notLocked => .notLocked
+  | .unown => .unown
+  | .cancelNone => .cancelNone
+  | .cancel x => .cancel (waiterOf k x)
+  | .dec h c' => .dec (holdOf k h) { c' with mgr := true }
+  | .release h c' => .release (holdOf k h) { c' with mgr := true }
+
+theorem abs_isEmpty_newKey (n : Nat) : (Engine2.Key.abs (Engine2.newKey n)).isEmpty = true := by rw [abs_newKey]; rfl
+
+/-- **UNLOCK: the record-level branch is the stage-1 branch** (`mgr` = does the key record exist) -/
+theorem classify_unlock_refines (s : Engine2.DB) (hq : Engine2.DBQ s) (c : Engine.Cmd) :
+    Engine.classifyUnlock (Engine2.abs s) { c with mgr := s.hasKey c.key } = absUB (s.getKey c.key) c (Engine2.classifyUnlock s c) := by
+  have hl : Engine2.CurLive (s.getKey c.key) := Engine2.cur_getKey hq.dbt.tight c.key
+  have hn : Engine2.CurNone (s.getKey c.key) := (Engine2.qi_getKey hq.qi c.key).cn
+  unfold Engine.classifyUnlock Engine2.classifyUnlock
   simp only []
   rw [abs_getKey s hq.dbt.dbi.kn c.key]
-  simp only [abs_locked, abs_waited, abs_head _ hl hn, abs_findHolder, abs_doLock _ hl hn]
+  simp only [abs_locked, abs_head _ hl hn, abs_findHolder, abs_findCancel]
   have hlead : (Engine2.abs s).leader = s.leader := rfl
-  have hnow : (Engine2.abs s).now = s.now := rfl
-  rw [hlead, hnow]
-  repeat' split
-  all_goals (first | rfl | (simp_all [absLB]; done) | skip)
-  all_goals trace_state
-  all_goals sorry
+  rw [hlead]
+  have hcancel : absUB (s.getKey c.key) c
+      (match Engine2.findCancel (s.getKey c.key) c.lockId with | some w => Engine2.UnlockBranch.cancel w | none => Engine2.UnlockBranch.cancelNone) =
+      (match (Engine2.findCancel (s.getKey c.key) c.lockId).map (waiterOf (s.getKey c.key)) with
+        | some w => Engine.UnlockBranch.cancel w | none => Engine.UnlockBranch.cancelNone) := by
+    cases Engine2.findCancel (s.getKey c.key) c.lockId <;> rfl
+  have hgo : ∀ (h : Nat) (c' : Engine.Cmd), absUB (s.getKey c.key) c
+      (if (decide (((s.getKey c.key).getR h).depth > 1) && decide (c'.rcount > 0) && !has c'.tflag Engine.TF_PRIORITY) = true then
+        Engine2.UnlockBranch.dec h c' else Engine2.UnlockBranch.release h c') =
+      (if (decide ((holdOf (s.getKey c.key) h).depth > 1) && decide (c'.rcount > 0) && !has c'.tflag Engine.TF_PRIORITY) = true then
+        Engine.UnlockBranch.dec (holdOf (s.getKey c.key) h) { c' with mgr := true }
+       else Engine.UnlockBranch.release (holdOf (s.getKey c.key) h) { c' with mgr := true }) := by
+    intro h c'
+    have e : (holdOf (s.getKey c.key) h).depth = ((s.getKey c.key).getR h).depth := rfl
+    rw [e]
+    split <;> rfl
+  cases hh : s.hasKey c.key with
+  | false =>
+    simp only [Bool.not_false, if_true]
+    have hk : s.getKey c.key = Engine2.newKey c.key := Engine2.getKey_of_not_hasKey s c.key hh
+    rw [hk]
+    have h0 : (Engine2.newKey c.key).locked = 0 := rfl
+    have hfc : Engine2.findCancel (Engine2.newKey c.key) c.lockId = none := rfl
+    simp only [abs_isEmpty_newKey, h0, hfc, Bool.false_or, Bool.not_true, Bool.and_false, Bool.false_eq_true, if_false, beq_self_eq_true, if_true,
+      Option.map_none, absUB]
+  | true =>
+    simp only [Bool.not_true, Bool.false_eq_true, if_false, Bool.true_or, Bool.and_true]
+    by_cases h3 : (!s.leader && !has c.flag Engine.F_FROM_AOF) = true
+    · rw [if_pos h3, if_pos h3]; rfl
+    rw [if_neg h3, if_neg h3]
+    by_cases hL : ((s.getKey c.key).locked == 0) = true
+    · rw [if_pos hL, if_pos hL]
+      by_cases hC : has c.flag Engine.UF_CANCEL = true
+      · rw [if_pos hC, if_pos hC]; exact hcancel.symm
+      · rw [if_neg hC, if_neg hC]; rfl
+    rw [if_neg hL, if_neg hL]
+    cases hf : Engine2.findHolder (s.getKey c.key) c.lockId with
+    | some h => simp only [Option.map_some]; exact (hgo h c).symm
+    | none =>
+      simp only [Option.map_none]
+      by_cases hF : has c.flag Engine.UF_FIRST = true
+      · rw [if_pos hF, if_pos hF]
+        cases hc : (s.getKey c.key).current with
+        | none => rfl
+        | some h =>
+          simp only [Option.map_some]
+          exact (hgo h (Engine2.showCmd c ((s.getKey c.key).getR h))).symm
+      · rw [if_neg hF, if_neg hF]
+        by_cases hC : has c.flag Engine.UF_CANCEL = true
+        · rw [if_pos hC, if_pos hC]; exact hcancel.symm
+        · rw [if_neg hC, if_neg hC]; rfl
 
 end Slock.Sim
